@@ -4,7 +4,7 @@
     world W) and the planner (Model/Redirect.v plan_tokens) = Model/FullPlan.plan.
 
     [quiet t] is the conjunction of the ENTRY GUARDS of the expansion passes for
-    the tag of [t], written with the model's own predicates (env_in_token,
+    the tag of [t], written with the model's own predicates (env_in_token, env_in_tagged_token,
     need_expand_brace, needs_globbing, rx_brace_range, dot_split,
     should_do_dollar, the leading tilde, the pipe word for the alias pass): a
     quiet token is skipped by every pass. [do_expansion_quiet] proves that.
@@ -39,7 +39,7 @@ Definition quiet (t : Expand.token) : bool :=
   let s := snd t in
   match fst t with
   | TSq => true
-  | TDq => negb (env_in_token s) && is_none (dot_split s) && negb (should_do_dollar s)
+  | TDq => negb (env_in_tagged_token s true) && is_none (dot_split s) && negb (should_do_dollar s)
   | TBs => negb (env_in_token s)
   | TNone => negb (str_eqb s [124]) && is_none (strip_prefix [126] s) && negb (env_in_token s)
              && negb (need_expand_brace s) && negb (needs_globbing s) && negb (rx_search rx_brace_range s)
@@ -73,7 +73,7 @@ Proof.
     repeat match goal with X : negb _ = true |- _ => apply negb_true_iff in X end.
     repeat match goal with X : is_none _ = true |- _ => apply is_none_eq in X end.
     constructor; unfold EU.quiet_alias, expand_home_tok, expand_env_tok, brace_sel, glob_sel, range_sel, dot_ok, dollar_ok;
-      cbn [fst snd tag_is_empty tag_eqb negb andb orb];
+      cbn [fst snd tag_is_empty tag_eqb negb andb orb]; rewrite ?tagged_gate_unquoted;
       repeat match goal with X : _ = _ |- _ => rewrite X end; reflexivity.
   - constructor; unfold EU.quiet_alias, expand_home_tok, expand_env_tok, brace_sel, glob_sel, range_sel, dot_ok, dollar_ok;
       cbn [fst snd tag_is_empty tag_eqb negb andb orb]; try reflexivity; exact I.
@@ -82,12 +82,12 @@ Proof.
     repeat match goal with X : negb _ = true |- _ => apply negb_true_iff in X end.
     repeat match goal with X : is_none _ = true |- _ => apply is_none_eq in X end.
     constructor; unfold EU.quiet_alias, expand_home_tok, expand_env_tok, brace_sel, glob_sel, range_sel, dot_ok, dollar_ok;
-      cbn [fst snd tag_is_empty tag_eqb negb andb orb];
+      cbn [fst snd tag_is_empty tag_eqb negb andb orb]; rewrite ?tagged_gate_unquoted;
       repeat match goal with X : _ = _ |- _ => rewrite X end; reflexivity.
   - (* backslash tag *)
     apply negb_true_iff in H.
     constructor; unfold EU.quiet_alias, expand_home_tok, expand_env_tok, brace_sel, glob_sel, range_sel, dot_ok, dollar_ok;
-      cbn [fst snd tag_is_empty tag_eqb negb andb orb]; try rewrite H; try reflexivity; exact I.
+      cbn [fst snd tag_is_empty tag_eqb negb andb orb]; rewrite ?tagged_gate_unquoted; try rewrite H; try reflexivity; exact I.
 Qed.
 
 Lemma cmd_skips W cmd : EI.cmd_ok W cmd -> skips W (TNone, cmd).
@@ -97,7 +97,7 @@ Proof.
   constructor.
   - unfold EU.quiet_alias. cbn [fst snd tag_is_empty tag_eqb andb]. now apply str_eqb_neq.
   - unfold expand_home_tok. cbn [fst snd tag_is_empty tag_eqb]. now rewrite (EI.strip_prefix_absent 126 cmd H126).
-  - unfold expand_env_tok. cbn [fst snd]. now rewrite (Proofs.EnvProofs.env_in_token_no_dollar cmd H36).
+  - unfold expand_env_tok. cbn [fst snd]. now rewrite (Proofs.ExpandOnceProofs.tagged_gate_no_dollar cmd _ H36).
   - now apply EI.brace_sel_still.
   - now apply EI.glob_sel_still.
   - now apply EI.range_sel_still.
@@ -146,7 +146,7 @@ Proof.
   assert (Es : do_command_substitution fuel W ((TNone, cmd) :: l) = Ok ((TNone, cmd) :: l, [])).
   { unfold do_command_substitution, subst_dot.
     rewrite (dot_collect_ok W _ (forall_skips W _ _ (sk_dot W) Hall)). cbn [res_map bind fst snd fold_left].
-    unfold subst_dollar. rewrite (dollar_pass_ok fuel W _ (forall_skips W _ _ (sk_dollar W) Hall)). reflexivity. }
+    rewrite Proofs.SubstProofs.subst_dollar_eq. rewrite (dollar_pass_ok fuel W _ (forall_skips W _ _ (sk_dollar W) Hall)). reflexivity. }
   rewrite Es. cbn [bind fst snd].
   assert (Er : expand_brace_range ((TNone, cmd) :: l) = Ok ((TNone, cmd) :: l)).
   { apply EI.run_pass_skip. intros t Ht. apply sk_range with (W := W). rewrite Forall_forall in Hall. now apply Hall. }
